@@ -31,12 +31,36 @@ def main():
         meta = json.load(open(os.path.join(src, "meta.json")))
         prop = meta["property"]
         checks = [prop] + [c for c in extra if c != prop] + [c for c in meta.get("also_check", []) if c != prop]
-        p = subprocess.run([sys.executable, os.path.join(HERE, "tools/seedverify.py"), src, "--checks", ",".join(checks)], capture_output=True, text=True)
-        try:
-            r = json.loads(p.stdout)
-        except Exception:
-            print("%-14s ERROR running seedverify: %s" % (os.path.basename(src), (p.stdout + p.stderr)[-300:]))
+        def verify(cs):
+            p = subprocess.run([sys.executable, os.path.join(HERE, "tools/seedverify.py"), src, "--checks", ",".join(cs)], capture_output=True, text=True)
+            try:
+                return json.loads(p.stdout)
+            except Exception:
+                print("%-14s ERROR running seedverify: %s" % (os.path.basename(src), (p.stdout + p.stderr)[-300:]))
+                return None
+        r = verify(checks)
+        if r is None:
             continue
+        kept_from_before = {}
+        if recheck:
+            # The property's own check (and any --checks given) has just been re-run. If none of
+            # them catches the change, the other checks recorded for it are re-run too, those
+            # that caught it before first; records of checks that were not re-run are kept as
+            # they were (marked), so that a recheck never forgets which checks were tried.
+            def caught_now(rr):
+                return [c for c, v in rr.get("checks", {}).items() if v["rc"] == 1 and v["violations"] > 0]
+            before = meta.get("ran", {})
+            others = [c for c in meta.get("caught_by", []) if c not in checks] + [c for c in before if c not in checks and c not in meta.get("caught_by", [])]
+            for c in others:
+                if caught_now(r):
+                    break
+                r2 = verify([c])
+                if r2 is None:
+                    continue
+                r.setdefault("checks", {}).update(r2.get("checks", {}))
+            for c in before:
+                if c not in r.get("checks", {}):
+                    kept_from_before[c] = dict(before[c], not_rerun_in_the_last_recheck=True)
         valid = "error" not in r and r.get("demo_unchanged") == "pass" and r.get("suite_with_patch") == "pass" and str(r.get("demo_patched", "")).startswith("fail")
         caught = [c for c, v in r.get("checks", {}).items() if v["rc"] == 1 and v["violations"] > 0]
         name = os.path.basename(src) if recheck else "%s%s-%s" % (prop, tag, os.path.basename(src))
@@ -61,6 +85,7 @@ def main():
                                  "files_changed": r.get("files_changed"), "demo_output_with_patch": r.get("demo_patched_output", "")[:600]}
         meta_out["ran"] = {c: {"command": "VERIF_REPO=<scratch worktree with patch applied> ./check %s quick" % c, "exit": v["rc"], "violation_lines": v["violations"], "signatures": v["sigs"], "seconds": v["s"]}
                            for c, v in r.get("checks", {}).items()}
+        meta_out["ran"].update(kept_from_before)
         meta_out["caught_by"] = caught
         json.dump(meta_out, open(os.path.join(dst, "meta.json"), "w"), indent=1)
 
